@@ -22,10 +22,10 @@ def F(*names):
 
 # default build of fast-tlsh: std, easy-functions, opt-default (length table, qratios double table,
 # pearson double table), simd (all four opt-simd-*), detect-features
-reg("default", F("tlsh-default"), flags=[15, 16, 18, 19, 21])
-reg("strict", F("tlsh-default", "f-strict-parser"), flags=[1, 15, 16, 18, 19, 21])
+reg("default", F("tlsh-default"), flags=[15, 16, 18, 19, 21, 34])
+reg("strict", F("tlsh-default", "f-strict-parser"), flags=[1, 15, 16, 18, 19, 21, 34])
 
-reg("release", F("tlsh-default"), profile="release", flags=[3, 15, 16, 18, 19, 21])
+reg("release", F("tlsh-default"), profile="release", flags=[3, 15, 16, 18, 19, 21, 34])
 
 SETUP_CONFIGS = ["default", "release"]
 
